@@ -58,6 +58,9 @@ Inductive case :=
 | CLit (s : bytes) (ovf : bool) (obs_try obs_lex : option olit) (two_sided : bool)
 (* decodeOldClassAdString *)
 | COld (inner : bytes) (obs : option bytes)
+(* parseAndInsertExpression (hook) on one expression string: None = it returned an error, otherwise the
+   name of the attribute it inserted and, when the stored value is a literal, that literal *)
+| CSplit (e : bytes) (obs : option (bytes * option olit))
 (* PutClassAdRaw(exprs, my, tg) + trailer on a real stream, then the three real receivers *)
 | CWire (exprs : list bytes) (my tg : bytes) (runs : list wrun)
 (* a peer that writes marker + secret as two ordinary strings (no crypto toggle), as C++ does on an
@@ -133,6 +136,18 @@ Definition check_case (c : case) : bool :=
       | Some a, Some b => bytes_eqb a b
       | None, None => true
       | _, _ => false
+      end
+  | CSplit e obs =>
+      match split_expr e, obs with
+      | None, None => true
+      | None, Some _ => false                 (* no '=' or an empty name: must be rejected *)
+      | Some _, None => true                  (* the value text was not an expression *)
+      | Some (n, v), Some (n', ol) =>
+          bytes_eqb n n' &&
+          match lex_literal v with
+          | Some l => olit_matches (Some l) ol
+          | None => true
+          end
       end
   | CWire exprs my tg runs => forallb (check_wrun (fun st => put_raw st exprs my tg)) runs
   | CWireManual items my tg runs => forallb (check_wrun (fun st => put_manual st items my tg)) runs
